@@ -42,13 +42,19 @@ func NewBinaryProtoFunc() erpc.ProtoFunc {
 		p.tProtocol = thrift.NewTHeaderProtocol(&BaseTTransport{
 			ReadWriteCounter: p.rwCounter,
 		})
+		// Unpack runs concurrently with Pack: it must not share the (stateful,
+		// unsynchronized) header protocol with the packing side.
+		p.rProtocol = thrift.NewTHeaderProtocol(&BaseTTransport{
+			ReadWriteCounter: p.rwCounter,
+		})
 		return p
 	}
 }
 
 type tBinaryProto struct {
 	rwCounter  *utils.ReadWriteCounter
-	tProtocol  *thrift.THeaderProtocol
+	tProtocol  *thrift.THeaderProtocol // packing side
+	rProtocol  *thrift.THeaderProtocol // unpacking side
 	packLock   sync.Mutex
 	unpackLock sync.Mutex
 	name       string
@@ -73,7 +79,7 @@ func (t *tBinaryProto) Pack(m erpc.Message) error {
 func (t *tBinaryProto) Unpack(m erpc.Message) error {
 	err := t.binaryUnpack(m)
 	if err != nil {
-		t.tProtocol.Transport().Close()
+		t.rProtocol.Transport().Close()
 	}
 	return err
 }
@@ -121,22 +127,22 @@ func (t *tBinaryProto) binaryPack(m erpc.Message) error {
 func (t *tBinaryProto) binaryUnpack(m erpc.Message) error {
 	t.unpackLock.Lock()
 	defer t.unpackLock.Unlock()
-	t.rwCounter.WriteCounter.Zero()
+	t.rwCounter.ReadCounter.Zero()
 
-	err := readMessageBegin(t.tProtocol, m)
+	err := readMessageBegin(t.rProtocol, m)
 	if err != nil {
 		return err
 	}
 
-	bodyBytes, err := t.tProtocol.ReadBinary()
+	bodyBytes, err := t.rProtocol.ReadBinary()
 	if err != nil {
 		return err
 	}
-	if err = t.tProtocol.ReadMessageEnd(); err != nil {
+	if err = t.rProtocol.ReadMessageEnd(); err != nil {
 		return err
 	}
 
-	headers := t.tProtocol.GetReadHeaders()
+	headers := t.rProtocol.GetReadHeaders()
 	m.Status(true).DecodeQuery(goutil.StringToBytes(headers[HeaderStatus]))
 	m.Meta().Parse(headers[HeaderMeta])
 	if codecID := headers[HeaderBodyCodec]; codecID != "" {
